@@ -283,6 +283,42 @@ func genC10Race(seed uint64, part string) *Scenario {
 	case "race-nq":
 		pf.qKinds = []string{"zero", "one", "two"}
 	}
+	if part != "race-nq" && r.Chance(1, 4) {
+		// moving-average decorators of the library (their EwmaUpdate touches plain
+		// fields) fed through every Ewma entry point, assignments included, while
+		// frames are drawn; bars without completion trigger, so that assignments in
+		// any order are harmless
+		sc := &Scenario{Fam: "C10/" + part, Seed: seed, Q: -1, Width: 100, End: "natural", Policy: "none", Mode: "auto", RefreshUS: r.Pick(50, 200, 1000), Late: true}
+		nb := r.Range(1, 3)
+		for i := 0; i < nb; i++ {
+			b := simpleBar(int64(r.Pick(0, -1)))
+			b.Filler = r.PickS("nop", "bar")
+			b.Finish = "settotal"
+			b.App = []DecSpec{{Kind: r.PickS("ewmaeta", "ewmaspeed"), W: r.Pick(0, 3)}}
+			if r.Bool() {
+				b.Pre = []DecSpec{{Kind: r.PickS("ewmaeta", "ewmaspeed"), W: r.Pick(0, 8), Wrap: r.PickS("", "oncomplete", "meta")}}
+			}
+			sc.Bars = append(sc.Bars, b)
+		}
+		for c := 0; c < r.Range(2, 4); c++ {
+			var ops []Op
+			for i := 0; i < r.Range(6, 20); i++ {
+				bi := r.Intn(nb)
+				switch r.Intn(6) {
+				case 0, 1, 2:
+					ops = append(ops, Op{K: "ewmasetcur", B: bi, N: int64(1000*(c+1) + i)})
+				case 3:
+					ops = append(ops, Op{K: r.PickS("ewmaincr", "ewmaincrement"), B: bi, N: 1})
+				case 4:
+					ops = append(ops, Op{K: "cur", B: bi})
+				default:
+					ops = append(ops, Op{K: "sleep", N: int64(r.Pick(20, 100, 300))})
+				}
+			}
+			sc.Clients = append(sc.Clients, ops)
+		}
+		return sc
+	}
 	sc := genMixed(seed, "C10/"+part, pf)
 	return raceify(sc, r)
 }
